@@ -392,7 +392,11 @@ func GenPhysical(t *rapid.T, w *Workbook) {
 		k := nums[i]
 		p := fmt.Sprintf("xl/worksheets/sheet%d.xml", k)
 		if style == "renamed" && !decoy {
-			switch rapid.IntRange(0, 4).Draw(t, "partForm") {
+			switch rapid.IntRange(0, 5).Draw(t, "partForm") {
+			case 5:
+				// a part outside /xl: any part name is allowed (OPC §8.1.1); reachable only through the relationship,
+				// written as an absolute target or relative to /xl/workbook.xml ("../parts/…")
+				p = fmt.Sprintf("parts/%s%d.xml", rapid.SampledFrom(partWords).Draw(t, "partWord"), k)
 			case 0:
 				p = fmt.Sprintf("xl/worksheets/sub/%s%d.xml", rapid.SampledFrom(partWords).Draw(t, "partWord"), k)
 			case 1:
@@ -444,6 +448,10 @@ func GenPhysical(t *rapid.T, w *Workbook) {
 	o.SSTNoDedupe = rapid.IntRange(0, 4).Draw(t, "sstNoDedupe") == 0
 	for i, k := 0, rapid.IntRange(0, 3).Draw(t, "sstFiller"); i < k; i++ {
 		o.SSTFiller = append(o.SSTFiller, fmt.Sprintf("filler-%d", i))
+	}
+	if rapid.IntRange(0, 2).Draw(t, "sstEmptyEntry") == 0 {
+		// an empty string item <si><t></t></si> is a string like any other (18.4.8) and occupies an index
+		o.SSTFiller = append(o.SSTFiller, "")
 	}
 	if rapid.IntRange(0, 11).Draw(t, "sstRenamed") == 0 {
 		o.SSTPart = rapid.SampledFrom([]string{"xl/strings.xml", "xl/sst/sharedStrings1.xml", "xl/worksheets/strings.xml"}).Draw(t, "sstPart")
